@@ -255,6 +255,12 @@ func setFieldValue(options *types.FieldOptions, targetField *yaml.RNode, value *
 	if targetField.YNode().Kind == yaml.ScalarNode {
 		// For scalar, only copy the value (leave any type intact to auto-convert int->string or string->int)
 		targetField.YNode().Value = value.YNode().Value
+		var probe interface{}
+		if err := targetField.YNode().Decode(&probe); err != nil {
+			// the text is not of the target's type (`x` written over a null or an int):
+			// tagged like that the node could not be encoded; as a string it can
+			targetField.YNode().Tag = yaml.NodeTagString
+		}
 	} else {
 		targetField.SetYNode(value.YNode())
 	}
